@@ -13,6 +13,8 @@ from vlib import cN, cNlist, clist, chex
 
 IMPORTS = "From DtlsV Require Import Lib.Bytes Crypto.C10Run."
 
+SITE_RX = "pkg/crypto/ciphersuite (receive direction)"
+
 # (leg, package, test regexp, site reported for mismatches)
 HARNESSES = [
     # the first two legs start with the regression corpus (former failing inputs of the fixed defects
@@ -28,6 +30,9 @@ HARNESSES = [
     ("keymessage", "./internal/handshakecrypto", "^TestVerifC10KeyMessage$", "internal/handshakecrypto/crypto.go ValueKeyMessage"),
     ("live", ".", "^TestVerifC10Live$", "conn.go record protection (live traffic, key-log keyed decoder)"),
     ("record13", "./internal/ciphersuite", "^TestVerifC10Record13$", "internal/ciphersuite/tls_13_record_protection.go"),
+    # receive direction: records a conforming peer may send (explicit nonce != epoch||seq, extra padding, ...)
+    ("receive12", "./internal/ciphersuite", "^TestVerifC10Receive12$", SITE_RX),
+    ("receive13", "./internal/ciphersuite", "^TestVerifC10Receive13$", SITE_RX),
 ]
 
 
@@ -89,7 +94,26 @@ def nontrivial(c):
 
 
 def key_of(c):
+    if c.get("rx"):
+        return (c["fn"], c["rx"]["suite"], c["rx"]["record"])
     return (c["fn"], c["h"], tuple(c["in"]), tuple(c["n"]))
+
+
+def monitor_rx(c):
+    """receive-direction predicate: a record built per RFC must be accepted with the right plaintext,
+    a record with one bit changed must be rejected. Returns None or (signature, description)."""
+    rx = c.get("rx")
+    if not rx:
+        return None
+    if rx["want"] == 1 and rx["got"] != 1:
+        return ({"monitor": "conforming record rejected", "suite": rx["family"]},
+                "%s: a record built per RFC by a conforming peer (%s) is rejected by Decrypt/Open: %s" % (
+                    rx["suite"], ("explicit nonce: " + rx["nonce_mode"]) if rx.get("nonce_mode") else c.get("tag", ""),
+                    rx.get("err", "")))
+    if rx["want"] == 0 and rx["got"] != 0:
+        return ({"monitor": "forged record accepted", "suite": rx["family"], "control": rx.get("control", "")},
+                "%s: a record with one bit of `%s` changed is accepted" % (rx["suite"], rx.get("control", "")))
+    return None
 
 
 def signature_of(c):
@@ -143,7 +167,21 @@ def run(chk):
         # implementation-side monitors (regression corpus values, exporter secrecy consequence)
         allc = [(leg, site, c) for leg, site, cases in legs for c in cases]
         mon_reported = set()
-        for leg, site, c in allc:
+        rx_failed = set()
+        for idx, (leg, site, c) in enumerate(allc):
+            mr = monitor_rx(c)
+            if mr:
+                rx_failed.add(idx)
+                sig, what = mr
+                if str(sig) not in mon_reported:
+                    mon_reported.add(str(sig))
+                    found_input = True
+                    chk.finding(SITE_RX, sig, what,
+                                {"how": "initialise the suite with Init(ms, client_random, server_random, isClient=n[1]) "
+                                        "(DTLS 1.2; in = ms, cr, sr, cid, plaintext, explicit nonce / IV) resp. "
+                                        "NewRecordProtection(in[0]) (DTLS 1.3) and call Decrypt / Open on rx.record",
+                                 "rx": c["rx"], "case": c,
+                                 "rerun": "VERIF_SEED=%d bin/check C10 --tier %s" % (chk.seed, chk.tier)})
             m = monitor(c)
             if m and (c.get("tag"), m[:40]) not in mon_reported:
                 mon_reported.add((c.get("tag"), m[:40]))
@@ -161,6 +199,8 @@ def run(chk):
             badset = set(bad)
             reported = set()
             for i in bad:
+                if i in rx_failed:
+                    continue  # already reported by the receive-direction monitor
                 leg, site, c = allc[i]
                 sig = signature_of(c)
                 k = (c.get("site") or site, str(sig))
